@@ -60,31 +60,32 @@ theorem C02_proj (d1 d2 : Dialect) (sch : Schema) (L : LikeFn) (env : PEnv) (e :
   subst this
   exact ⟨v1, e1, e2⟩
 
-/-! ### the PostgreSQL guard of the fragment is not removable -/
+/-! ### the typing guards of the fragment are not removable on PostgreSQL -/
 
 def sch1 : Schema where
-  attr n := if n = "b" then some (.bool, false) else if n = "nb" then some (.bool, true) else none
+  attr n := if n = "b" then some (.bool, false) else none
   par _ := none
 
-/-- `b = True`, `nb` missing -/
+/-- `b = True` -/
 def env1 : PEnv where
   col n := if n = "b" then some (.bool true) else none
   par _ := .int 0
 
-/-- `not (e.nb if e.b else e.nb)` -/
-def e1 : Expr := .not (.ite (.attr "b") (.attr "nb") (.attr "nb"))
+/-- `-e.b > -2`  (Python: `-True > -2` is true) -/
+def e1 : Expr := .cmp .gt (.neg (.attr "b")) (.cInt (-2))
 
-/-- SQLite: `coalesce(case when b then nb else nb end, 0) = 0` -/
-def sqliteCond : Sql := .cmp .eq (.coalesce (.case (.column "b") (.column "nb") (.column "nb")) (.value (.int 0))) (.value (.int 0))
-/-- PostgreSQL: `NOT (coalesce(case when b then nb else nb end, true))` -/
-def pgCond : Sql := .not (.coalesce (.case (.column "b") (.column "nb") (.column "nb")) (.value (.bool true)))
+/-- SQLite: `-("e"."b") > -2` -/
+def sqliteCond : Sql := .cmp .gt (.neg (.column "b")) (.value (.int (-2)))
+/-- PostgreSQL: `(-("e"."b"))::int > -2` — `NumericMixin.__neg__` keeps the type bool and casts only afterwards -/
+def pgCond : Sql := .cmp .gt (.toInt (.neg (.column "b"))) (.value (.int (-2)))
 
-/-- **Witness** (`NumericMixin.negate`, PostgreSQL branch for a nullable bool expression: `NOT COALESCE(x, true)`):
-    with `nb` missing the row is selected on SQLite (and by Python: `not None`) but rejected on PostgreSQL. -/
-theorem C02_pg_not_coalesce_witness :
+/-- **Witness**: unary minus of a bool attribute.  SQLite (booleans are integers) selects the row, as Python does; the statement
+    PostgreSQL receives applies `-` to a boolean, which the modelled PostgreSQL rejects (documented: no such operator) — outside
+    the fragment (`frag` requires an int operand for unary minus).  Unconfirmable offline. -/
+theorem C02_pg_neg_bool_witness :
     conditions sch1 .sqlite e1 = .ok (.cons sqliteCond .nil) ∧ conditions sch1 .pg e1 = .ok (.cons pgCond .nil) ∧
     evalCond likeExec .sqlite (senv .sqlite env1) (.and (.cons sqliteCond .nil)) = some .tt ∧
-    evalCond likeExec .pg (senv .pg env1) (.and (.cons pgCond .nil)) = some .ff ∧
+    evalCond likeExec .pg (senv .pg env1) (.and (.cons pgCond .nil)) = none ∧
     pySelected env1 e1 = true := by
   refine ⟨by rfl, by rfl, by decide, by decide, by decide⟩
 
@@ -101,17 +102,18 @@ theorem wt1 : WT sch1 env1 := by
     simp only [sch1] at h
     by_cases h1 : n = "b"
     · subst h1; simp at h; obtain ⟨rfl, rfl⟩ := h; simp [env1, hasTy]
-    · by_cases h2 : n = "nb"
-      · subst h2; simp at h; obtain ⟨rfl, rfl⟩ := h; simp [env1]
-      · simp [h1, h2] at h
+    · simp [h1] at h
   · intro n t h; simp [sch1] at h
 
 theorem C02_full_false : ¬ C02_full := by
   intro h
-  obtain ⟨c1, c2, v1, v2, _⟩ := C02_pg_not_coalesce_witness
-  obtain ⟨k1, k2, a1, a2, hiff⟩ := h .sqlite .pg sch1 likeExec env1 e1 _ _ wt1 (by decide) c1 c2
-  rw [v1] at a1; rw [v2] at a2
-  injection a1 with a1; injection a2 with a2; subst a1; subst a2
-  exact absurd (hiff.1 rfl) (by decide)
+  obtain ⟨c1, c2, _, v2, _⟩ := C02_pg_neg_bool_witness
+  obtain ⟨k1, k2, _, a2, _⟩ := h .sqlite .pg sch1 likeExec env1 e1 _ _ wt1 (by decide) c1 c2
+  rw [v2] at a2; cases a2
+
+/-- the PostgreSQL special case repaired in a3f48ae (`NOT COALESCE(x, false)` for a possibly missing bool expression) is now inside
+    the fragment: `not (e.nb if e.b else e.nb)` -/
+example : frag { attr := fun n => if n = "b" then some (.bool, false) else if n = "nb" then some (.bool, true) else none, par := fun _ => none } .pg
+    (.not (.ite (.attr "b") (.attr "nb") (.attr "nb"))) = true := by decide
 
 end PonyVerif.Props.C02
